@@ -118,10 +118,10 @@ Qed.
 (* ------------------------------------------------------------------ the in-place class *)
 Definition is_setu (i : instr) : bool := match i with ISetU _ _ _ => true | _ => false end.
 
-Arguments write_c : simpl never.
-Arguments write_list : simpl never.
-Arguments update_u : simpl never.
-Arguments write : simpl never.
+Local Arguments write_c : simpl never.
+Local Arguments write_list : simpl never.
+Local Arguments update_u : simpl never.
+Local Arguments write : simpl never.
 
 Ltac frame_solve :=
   repeat destr_match; cbn; (split; [|reflexivity]); try apply frame_refl;
@@ -288,10 +288,10 @@ Proof.
 Qed.
 
 (* ------------------------------------------------------------------ every class but the in-place ones: no cell written *)
-Arguments update_n : simpl never.
-Arguments set_tuple : simpl never.
-Arguments map_tree : simpl never.
-Arguments fuel_of : simpl never.
+Local Arguments update_n : simpl never.
+Local Arguments set_tuple : simpl never.
+Local Arguments map_tree : simpl never.
+Local Arguments fuel_of : simpl never.
 
 Definition writes_possible (i : instr) : bool :=
   match classify i with CInplace | CBest => true | _ => false end.
@@ -369,4 +369,64 @@ Lemma setu_refuted :
 Proof.
   exists d75_state, 1, ["x"%string; "q"%string], 0. split; [reflexivity|]. split; [vm_compute; reflexivity|].
   vm_compute. discriminate.
+Qed.
+
+(* ------------------------------------------------------------------ footprint of the whole-tree in-place operations *)
+Definition leaf_sids (ls : list (path * view)) : list nat := map (fun pv => vsid (snd pv)) ls.
+
+Lemma pair_all_fst : forall ls lo prs, pair_all ls lo = Some prs -> map (fun vo => vsid (fst vo)) prs = leaf_sids ls.
+Proof.
+  induction ls as [|[p v] t IH]; intros lo prs H; cbn in H.
+  - inversion H; subst. reflexivity.
+  - destruct (assoc_path lo p); [|discriminate]. destruct (pair_all t lo) eqn:E; [|discriminate].
+    inversion H; subst. cbn. f_equal. eapply IH; eauto.
+Qed.
+
+Lemma pair_inter_fst : forall ls lo, incl (map (fun vo => vsid (fst vo)) (pair_inter ls lo)) (leaf_sids ls).
+Proof.
+  induction ls as [|[p v] t IH]; intros lo x Hx; cbn in *; auto.
+  destruct (assoc_path lo p); cbn in Hx.
+  - destruct Hx as [Hx|Hx]; [now left|right; eapply IH; eauto].
+  - right. eapply IH; eauto.
+Qed.
+
+Definition whole_tree_inplace (i : instr) : option nat :=
+  match i with
+  | IUpdU r _ | ISetItemSc r _ _ _ | IConstU r _ | IUnaryU r _ | IBinaryU r _ _ => Some r
+  | _ => None
+  end.
+
+(* only storages behind the receiver's own entries can change *)
+Lemma step_inplace_footprint : forall s i r d ls,
+  whole_tree_inplace i = Some r -> reg s r = Some d -> leaves_of (hp s) d = Some ls ->
+  only_storages (leaf_sids ls) (hp s) (hp (fst (step s i))).
+Proof.
+  intros s i r d ls Hw Hr Hl. destruct i; cbn in Hw; try discriminate; inversion Hw; subst; unfold step; cbv zeta; rewrite Hr.
+  - (* IUpdU *)
+    destruct (reg s src) as [o|]; [|apply only_refl]. cbn. unfold update_u. rewrite Hl.
+    destruct (leaves_of (hp s) o) as [lo|]; [|apply only_refl].
+    destruct (pair_inter ls lo) eqn:E.
+    + destruct lo; apply only_refl.
+    + rewrite <- E.
+      match goal with |- only_storages _ _ (fst ?x) => destruct x eqn:Ew end. cbn.
+      eapply only_mono; [|eapply write_list_only; exact Ew]. rewrite map_map. cbn. apply pair_inter_fst.
+  - (* ISetItemSc *)
+    rewrite Hl. cbn.
+    match goal with |- only_storages _ _ (fst ?x) => destruct x eqn:Ew end. cbn.
+    eapply only_mono; [|eapply write_list_only; exact Ew]. rewrite map_map. cbn. apply incl_refl.
+  - (* IConstU *)
+    rewrite Hl. cbn.
+    match goal with |- only_storages _ _ (fst ?x) => destruct x eqn:Ew end. cbn.
+    eapply only_mono; [|eapply write_list_only; exact Ew]. rewrite map_map. cbn. apply incl_refl.
+  - (* IUnaryU *)
+    rewrite Hl. cbn.
+    match goal with |- only_storages _ _ (fst ?x) => destruct x eqn:Ew end. cbn.
+    eapply only_mono; [|eapply write_list_only; exact Ew]. rewrite map_map. cbn. apply incl_refl.
+  - (* IBinaryU *)
+    destruct (reg s src) as [o|]; [|apply only_refl]. rewrite Hl.
+    destruct (leaves_of (hp s) o) as [lo|]; [|apply only_refl].
+    destruct (pair_all ls lo) as [prs|] eqn:E; [|apply only_refl]. cbn.
+    match goal with |- only_storages _ _ (fst ?x) => destruct x eqn:Ew end. cbn.
+    eapply only_mono; [|eapply write_list_only; exact Ew]. rewrite map_map. cbn.
+    rewrite (pair_all_fst _ _ _ E). apply incl_refl.
 Qed.
